@@ -86,8 +86,75 @@ pending waiters are released, calls queued to it are resolved (never answered). 
 `Life`-level statement of what C08 demands; C08 itself is decided by its own check. The driver
 model `life-residue` runs this automaton, plus the registry frame clauses, on the implementation's
 traces.) -/
-theorem failed_spawn_leaves_nothing (id : Nat) (ops : List AOp) : Life.Residue.ok (trace id ops) = true :=
-  Life.Residue.residue_ok id ops
+theorem failed_spawn_leaves_nothing (id : Nat) (ops : List AOp)
+    (hops : ∀ op ∈ ops, Life.Residue.AOp.notInstant op = true) : Life.Residue.ok (trace id ops) = true :=
+  Life.Residue.residue_ok id ops hops
+
+/-! ### Round 4: instant spawns, re-linking -/
+
+/-- `spawn_instant*`: a kill that reaches the cell while it is still `Unstarted` wins against
+`pre_start`: the first poll of the start task enters no callback, emits no supervision event (even
+though a thread-local cell was linked to its supervisor an instant before), reports
+`Err("Actor killed during startup")` through the start handle and leaves the cell `done`. -/
+theorem instant_kill_before_start (a : Actor) (supOk : Bool) (hph : a.phase = .cell) (hk : a.sigVal = true) :
+    (∀ e ∈ evs (opPollSpawn a supOk).2, e = .spawnRet .killed ∨ e = .spawnRet .nolink) ∧
+    (opPollSpawn a supOk).1.phase = .done := by
+  have hc := Life.C04.cleanup_none
+  unfold opPollSpawn startInstant
+  simp only [hph]
+  have hb : ∀ b : Actor, b.sigVal = true →
+      (∀ e ∈ evs (beginPre b).2, e = .spawnRet .killed ∨ e = .spawnRet .nolink) ∧ (beginPre b).1.phase = .done := by
+    intro b hb
+    unfold beginPre
+    simp only [hb, ↓reduceIte]
+    refine ⟨?_, by simp [failSpawn, Actor.dropPorts]⟩
+    intro e he
+    simp [handleSignal, failSpawn, (hc _).1] at he
+    exact Or.inl he
+  split
+  · split
+    · split
+      · refine ⟨?_, by simp [failSpawn, Actor.dropPorts]⟩
+        intro e he
+        simp [failSpawn, (hc _).1] at he
+        exact Or.inr he
+      · refine ⟨?_, ?_⟩
+        · intro e he
+          simp only [andThen_snd, evs_append, evs_doLink, List.nil_append] at he
+          exact (hb _ (by simpa using hk)).1 e he
+        · exact (hb _ (by simpa using hk)).2
+    · exact hb _ (by simpa using hk)
+  · exact hb _ (by simpa using hk)
+
+/-- The public `ActorCell::link` / `unlink` emit nothing: a re-link never produces (or duplicates) a
+lifecycle event; it only changes who the supervisor *is* (`supIs` after the op), and `reported_once`
+then demands that every later event goes to exactly that actor. -/
+theorem relink_silent (a : Actor) (p : Nat) (supOk : Bool) :
+    evs (opLink a p supOk).2 = [] ∧ evs (opUnlink a p).2 = [] := by
+  constructor
+  · unfold opLink; split <;> simp
+  · unfold opUnlink; split <;> simp
+
+/-- After an accepted `link p` the supervisor IS `p` (and the actor left the previous supervisor's
+child set: effect `unlink q`); a refused one changes nothing. -/
+theorem relink_target (a : Actor) (p : Nat) (supOk : Bool) :
+    (opLink a p supOk).1.sup = (if Status.draining.rank ≤ a.status.rank || !supOk then a.sup else some p) := by
+  unfold opLink; split <;> simp
+
+/-- Non-vacuity: an instant spawn that receives a message, a stop and then a relink before its start task
+runs; the terminal event goes to the supervisor of that instant (7, not the requested 3). -/
+example : traceNoSnap 5 [.spawnInstant (some 3) none true false, .send 1, .link 7 true, .pollSpawn true,
+      .resume ⟨[], .ok⟩, .pollSpawn true, .unlink 3, .link 7 true, .poll, .resume ⟨[], .ok⟩, .poll,
+      .resume ⟨[], .err 4⟩, .poll] =
+    [.instant, .sendRet false 1 true, .supIs (some 7), .enter .preStart .none, .tick .preStart,
+     .exit .preStart .ok, .spawnRet .ok, .supIs (some 3), .supIs none, .supIs (some 7),
+     .enter .postStart .none, .tick .postStart, .exit .postStart .ok, .emit 7 (.started 5),
+     .enter .handle (.msg 1), .tick .handle, .exit .handle (.err 4), .emit 7 (.failed 5 false 4), .join .ok,
+     .supIs none] := by decide
+
+/-- Non-vacuity: a kill before the start task's first poll. -/
+example : traceNoSnap 5 [.spawnInstant none none true false, .kill, .pollSpawn true, .send 2] =
+    [.instant, .killRet false true, .spawnRet .killed, .sendRet false 2 false] := by decide
 
 /-! ### E-SRC obligations -/
 
@@ -147,6 +214,9 @@ end C04
 #print axioms C04.invariant
 #print axioms C04.prestart_failure_silent
 #print axioms C04.failed_spawn_leaves_nothing
+#print axioms C04.instant_kill_before_start
+#print axioms C04.relink_silent
+#print axioms C04.relink_target
 #print axioms C04.src_cleanup_order
 #print axioms C04.src_terminate_condition
 #print axioms C04.src_status
